@@ -20,6 +20,8 @@ pub enum Trigger {
     LoneNodeJoinedLater,
     /// settled cluster, the primary dies
     PrimaryDies,
+    /// as PrimaryDies, but the survivors notice the broken connections in the opposite order
+    PrimaryDiesNoticedInReverse,
     /// settled cluster, `debug force-election` on node i
     ForceElection(usize),
     /// settled cluster, force-election on two nodes at once
@@ -100,10 +102,10 @@ pub fn build(c: &Config) -> Result<NetWorld, String> {
             w.add_client(0, &[&format!("auth {} {}", USER, PWD), &format!("join {}", node_name(i)), "<eof>"], true);
             Ok(w)
         }
-        Trigger::PrimaryDies => {
+        Trigger::PrimaryDies | Trigger::PrimaryDiesNoticedInReverse => {
             let mut w = settled_with_pids(c.nodes, &c.pids)?;
             let p = (0..c.nodes).find(|i| w.role(*i) == ClusterRole::Primary).ok_or("no primary after bootstrap")?;
-            w.kill_node(p)?;
+            w.kill_node_noticed(p, matches!(c.trigger, Trigger::PrimaryDiesNoticedInReverse))?;
             Ok(w)
         }
         Trigger::ForceElection(i) => {
@@ -189,6 +191,7 @@ pub fn configs(quick: bool) -> Vec<Config> {
     }
     v.push(Config { nodes: 2, pids: vec![100, 200], trigger: Trigger::ForceElectionTwice(0, 1) });
     v.push(Config { nodes: 3, pids: vec![100, 200, 300], trigger: Trigger::PrimaryDies });
+    v.push(Config { nodes: 3, pids: vec![100, 200, 300], trigger: Trigger::PrimaryDiesNoticedInReverse });
     v.push(Config { nodes: 3, pids: vec![100, 200, 300], trigger: Trigger::LateJoin });
     v.push(Config { nodes: 3, pids: vec![100, 200, 300], trigger: Trigger::ForceElection(1) });
     if !quick {
